@@ -302,6 +302,27 @@ Section Abs.
     intros Hc E ->. rewrite pending_queue_all, Hc, E, map_app, concat_app. reflexivity.
   Qed.
 
+  Lemma pfr_raised_client st data e st1 : F.parse_first_request fc ok st data = F.Raised e st1 ->
+    exists X, F.h_client st1 = F.h_client st ++ X /\ ((forall k, e <> HttpProtocolException k) -> X = []).
+  Proof.
+    unfold F.parse_first_request.
+    destruct (parse (F.h_request st) data) as [r|e0].
+    2:{ intros H; inversion H; subst. exists [F.BadRequest]. split; [reflexivity|].
+        intros Hn. exfalso. apply (Hn 7). reflexivity. }
+    destruct (negb (is_complete r)); [discriminate|].
+    destruct (http_handler_protocol r); try discriminate.
+    unfold F.on_request_complete.
+    destruct (F.before_upstream_connection _ _) as [a|e1];
+      [|intros H; inversion H; subst; exists []; split; [rewrite app_nil_r; reflexivity|reflexivity]].
+    destruct (connect_upstream _ _ _);
+      [|intros H; inversion H; subst; exists []; split; [rewrite app_nil_r; reflexivity|reflexivity]].
+    destruct (negb ok);
+      [intros H; inversion H; subst; exists []; split; [rewrite app_nil_r; reflexivity|reflexivity]|].
+    destruct (is_https_tunnel a); [discriminate|].
+    destruct (F.queue_request_for_upstream _ _ a) as [[? ?]|]; [discriminate|].
+    intros H; inversion H; subst. exists []. split; [rewrite app_nil_r; reflexivity|reflexivity].
+  Qed.
+
   (* the event handed to Handler.handle_data for Forward state [st] and segment [data] *)
   Definition ev_of (ev : H.event) (st : F.hstate) (data : bytes) : H.event :=
     if is_complete (F.h_request st) then with_oracles ev (H.req ev) (cdata_of st data)
@@ -429,37 +450,10 @@ Section Abs.
           -- exact Hcl.
       + (* an exception left _parse_first_request *)
         cbn [F.first_remainder].
+        destruct (pfr_raised_client _ _ _ _ Epfr) as (X & HX & Hnil).
         destruct e; cbn [FF.catch with_oracles H.req hrel fst snd];
-          try (split; [reflexivity|];
-               (* non-protocol exceptions leave the client queue alone *)
-               assert (Hsame : F.h_client st1 = F.h_client st);
-               [unfold F.parse_first_request in Epfr;
-                destruct (parse (F.h_request st) data) as [r|]; [|discriminate];
-                destruct (negb (is_complete r)); [discriminate|];
-                destruct (http_handler_protocol r); try discriminate;
-                unfold F.on_request_complete in Epfr;
-                destruct (F.before_upstream_connection _ _) as [a|]; [|inversion Epfr];
-                destruct (connect_upstream _ _ _); [|inversion Epfr; subst; reflexivity];
-                destruct (negb ok); [inversion Epfr|];
-                destruct (is_https_tunnel a); [discriminate|];
-                destruct (F.queue_request_for_upstream _ _ a) as [[? ?]|]; [discriminate|];
-                inversion Epfr; subst; reflexivity
-               |unfold cl_rel; rewrite Hsame; exact Hcl]).
+          try (split; [reflexivity|]; unfold cl_rel; rewrite HX, Hnil, app_nil_r by (intros k0 Hk; discriminate); exact Hcl).
         (* HttpProtocolException: a response (if any) is queued and handle_data returns True *)
-        assert (Hx : exists X, F.h_client st1 = F.h_client st ++ X).
-        { unfold F.parse_first_request in Epfr.
-          destruct (parse (F.h_request st) data) as [r|].
-          2:{ inversion Epfr; subst. eexists. reflexivity. }
-          destruct (negb (is_complete r)); [discriminate|].
-          destruct (http_handler_protocol r); try discriminate.
-          unfold F.on_request_complete in Epfr.
-          destruct (F.before_upstream_connection _ _) as [a|]; [|inversion Epfr; subst; exists []; rewrite app_nil_r; reflexivity].
-          destruct (connect_upstream _ _ _); [|inversion Epfr; subst; exists []; rewrite app_nil_r; reflexivity].
-          destruct (negb ok); [inversion Epfr; subst; exists []; rewrite app_nil_r; reflexivity|].
-          destruct (is_https_tunnel a); [discriminate|].
-          destruct (F.queue_request_for_upstream _ _ a) as [[? ?]|]; [discriminate|].
-          inversion Epfr; subst. exists []. rewrite app_nil_r. reflexivity. }
-        destruct Hx as [X HX].
         set (st1' := match F.exc_response k with Some c0 => F.queue_client st1 c0 | None => st1 end).
         assert (HX' : exists X', F.h_client st1' = F.h_client st ++ X').
         { subst st1'. destruct (F.exc_response k) as [c0|]; [|eauto].
@@ -469,3 +463,21 @@ Section Abs.
         eapply cl_rel_added; [exact Hcl|exact HX'|apply new_cl_app; exact HX'].
   Qed.
 End Abs.
+
+Lemma init_hsim fc t0 : hsim fc F.init_state (H.init t0).
+Proof. split; try reflexivity; try exact I; try (intros H; discriminate H). Qed.
+
+(* non-vacuity: CONNECT followed by tunnel payload in the same segment: ack to the client, payload upstream, in both *)
+Definition hc0 : H.cfg := H.mkCfg 65536 (LR.pk (bs "proxy.py v2.4") F.TunnelEstablished) 10%Z true.
+Definition ev0 : H.event :=
+  H.mkEvent 0%Z true false false false (Cn.Accept 0) (Cn.Accept 0) (H.RData []) (H.RData []) H.RIncomplete H.DNothing.
+Example handler_abstraction_example :
+  let data := bs "CONNECT h:443 HTTP/1.1" ++ CRLF ++ CRLF ++ bs "hello" in
+  match F.handle_data LR.fc0 true F.init_state data,
+        H.handle_data hc0 (ev_of LR.fc0 true ev0 F.init_state data) (H.init 0%Z) data with
+  | F.Done false st', (s', Some false) =>
+      F.upstream_queue st' = [bs "hello"] /\ H.pending_upstream s' = bs "hello" /\
+      H.pending_client s' = H.ack hc0 /\ H.is_tunnel s' = true
+  | _, _ => False
+  end.
+Proof. vm_compute. repeat split; reflexivity. Qed.
